@@ -27,6 +27,7 @@ TECHNIQUE += '; delivery of the ParseInfo (set_parseinfo interpreted on nodes wi
 LEVEL_TEXT += ' Added clause: parse information reaches both dict-like ASTs and model nodes, and nothing when it is off.'
 TECHNIQUE += '; freshness of make_parseinfo (a new record per call; no reuse keyed on a subset of the fields)'
 LEVEL_TEXT += ' Added clause: two invocations with the same rule and start get their own end positions.'
+LEVEL_TEXT += " Added clauses (rounds 9-11): lineinfo answers do not depend on earlier queries; the start offset's dependence on is_tokn (name table)."
 TECHNIQUE += '; the skip before a rule is a fixpoint (= C09.R2a)'
 TECHNIQUE += '; a memo hit hands the stored result back unchanged (= C04.R2)'
 TECHNIQUE += '; answers have no memory: one stand-in input asked for all offsets in three orders (R3b)'
